@@ -381,6 +381,34 @@ func ref(a, b Val) (defined, want bool, clause string) {
 		return true, want, "str-num-" + cls + "-numeral"
 	case "plain":
 		return true, false, "str-num-not-numeral"
+	case "int-numeral-outside-int64":
+		// a decimal numeral all the same: it denotes an integer no int64 holds. Against a float64 it
+		// is equal when the float is exactly that integer, unequal when the numeral does not even
+		// round to the float; in between (rounds to it, is not exactly it) the statement does not choose
+		if n.K == "int" {
+			// no int64 is that integer; but read as "round the numeral to a float64, then compare the
+			// float with the integer" (an integer and a float are equal when <= and >= hold, i.e. as
+			// float64) MaxInt64 equals "9223372036854775808": defined only where both readings agree
+			if pf, err := strconv.ParseFloat(s.S, 64); err == nil && pf == float64(n.I) {
+				return false, false, "str-num-int-numeral-outside-int64-rounds-to-int-as-float"
+			}
+			return true, false, "str-num-int-numeral-outside-int64-vs-int"
+		}
+		f := n.f()
+		if math.IsNaN(f) || math.IsInf(f, 0) {
+			return true, false, "str-num-int-numeral-outside-int64-vs-nonfinite"
+		}
+		r, ok := new(big.Rat).SetString(s.S)
+		if !ok {
+			return false, false, "str-num-" + cls
+		}
+		if r.Cmp(new(big.Rat).SetFloat64(f)) == 0 {
+			return true, true, "str-num-int-numeral-outside-int64-exactly-the-float"
+		}
+		if pf, err := strconv.ParseFloat(s.S, 64); err == nil && pf != f {
+			return true, false, "str-num-int-numeral-outside-int64-other-float"
+		}
+		return false, false, "str-num-int-numeral-outside-int64-rounds-to-float"
 	}
 	return false, false, "str-num-" + cls
 }
@@ -949,7 +977,7 @@ const (
 )
 
 // script builds the anko source evaluating all forms over the operand texts x and y.
-func script(prelude, x, y string, numeric bool) string {
+func script(prelude, x, y string, numeric bool, ta, tb string) string {
 	var sb strings.Builder
 	sb.WriteString(prelude)
 	sb.WriteString("s1 = nil\ns2 = nil\n")
@@ -962,8 +990,26 @@ func script(prelude, x, y string, numeric bool) string {
 	if numeric {
 		forms = append(forms, x+" <= "+y+" && "+x+" >= "+y, y+" <= "+x+" && "+y+" >= "+x)
 	}
+	// membership in a statically typed slice holding exactly the other operand
+	forms = append(forms, x+" in "+typedList(tb, y), y+" in "+typedList(ta, x))
 	sb.WriteString("[" + strings.Join(forms, ", ") + "]")
 	return sb.String()
+}
+
+// typedList spells a one-element slice literal of the element's own static type
+// (untyped for nil and containers).
+func typedList(kind, elem string) string {
+	switch kind {
+	case "int":
+		return "[]int64{" + elem + "}"
+	case "float":
+		return "[]float64{" + elem + "}"
+	case "str":
+		return "[]string{" + elem + "}"
+	case "bool":
+		return "[]bool{" + elem + "}"
+	}
+	return "[" + elem + "]"
 }
 
 func newEnv() *env.Env { return env.NewEnv() }
@@ -1052,10 +1098,10 @@ func oracle(c Case, o *h.Obs) *h.Fail {
 	}
 
 	modes := []struct{ name, src string }{
-		{"literal", script("", la, lb, numeric)},
-		{"variable", script("a = "+la+"\nb = "+lb+"\n", "a", "b", numeric)},
+		{"literal", script("", la, lb, numeric, ka, kb)},
+		{"variable", script("a = "+la+"\nb = "+lb+"\n", "a", "b", numeric, ka, kb)},
 		// operands read from list elements reach equal() as interface-kinded values
-		{"element", script("ea = ["+la+"]\neb = ["+lb+"]\n", "ea[0]", "eb[0]", numeric)},
+		{"element", script("ea = ["+la+"]\neb = ["+lb+"]\n", "ea[0]", "eb[0]", numeric, ka, kb)},
 	}
 	var first []bool
 	for mi, m := range modes {
@@ -1067,10 +1113,12 @@ func oracle(c Case, o *h.Obs) *h.Fail {
 			return h.Failf("C06|error"+sigTail, "a = %s\nb = %s\noperands as %s\nsource:\n%s\nanko error: %v", la, lb, m.name, m.src, err)
 		}
 		list, ok := got.([]interface{})
-		nforms := 8
+		nforms := 10
 		if numeric {
-			nforms = 10
+			nforms = 12
 		}
+		fTInAB, fTInBA := nforms-2, nforms-1
+		names := append(append([]string{}, formNames[:nforms-2]...), "a in typed[b]", "b in typed[a]")
 		if !ok || len(list) != nforms {
 			return h.Failf("C06|non-bool"+sigTail, "a = %s\nb = %s\noperands as %s\nsource:\n%s\nresult is not a list of %d values: %s", la, lb, m.name, m.src, nforms, ank.Describe(got))
 		}
@@ -1078,14 +1126,14 @@ func oracle(c Case, o *h.Obs) *h.Fail {
 		for i, e := range list {
 			bv, ok := e.(bool)
 			if !ok {
-				return h.Failf("C06|non-bool"+sigTail, "a = %s\nb = %s\noperands as %s\n`%s` did not yield a bool: %s", la, lb, m.name, formNames[i], ank.Describe(e))
+				return h.Failf("C06|non-bool"+sigTail, "a = %s\nb = %s\noperands as %s\n`%s` did not yield a bool: %s", la, lb, m.name, names[i], ank.Describe(e))
 			}
 			r[i] = bv
 		}
 		show := func() string {
 			var sb strings.Builder
 			for i, v := range r {
-				fmt.Fprintf(&sb, "  %-22s = %v\n", formNames[i], v)
+				fmt.Fprintf(&sb, "  %-22s = %v\n", names[i], v)
 			}
 			return sb.String()
 		}
@@ -1117,6 +1165,12 @@ func oracle(c Case, o *h.Obs) *h.Fail {
 		if r[fInBA] != r[fEqBA] {
 			return fail("law:in", "b in [a] disagrees with b == a")
 		}
+		if r[fTInAB] != r[fEqAB] {
+			return fail("law:in-typed", "a in "+typedList(kb, "b")+" disagrees with a == b")
+		}
+		if r[fTInBA] != r[fEqBA] {
+			return fail("law:in-typed", "b in "+typedList(ka, "a")+" disagrees with b == a")
+		}
 		if r[fSwAB] != r[fEqAB] {
 			return fail("law:switch", "switch a { case b } disagrees with a == b")
 		}
@@ -1140,13 +1194,127 @@ func oracle(c Case, o *h.Obs) *h.Fail {
 			}
 		} else {
 			for i := range r {
-				if i >= fCmpAB {
-					break // <=,>= belong to C05; only == and its three uses are compared across forms
+				if numeric && (i == fCmpAB || i == fCmpBA) {
+					continue // <=,>= belong to C05; only == and its uses are compared across forms
 				}
 				if r[i] != first[i] {
-					return h.Failf("C06|law:operand-form"+sigTail, "a = %s\nb = %s\n`%s` is %v with literal operands and %v with operands as %s", la, lb, formNames[i], first[i], r[i], m.name)
+					return h.Failf("C06|law:operand-form"+sigTail, "a = %s\nb = %s\n`%s` is %v with literal operands and %v with operands as %s", la, lb, names[i], first[i], r[i], m.name)
 				}
 			}
+		}
+	}
+	return nil
+}
+
+
+// ---------------------------------------------------- sub-check "stateless"
+
+// HistCase: one comparison site (a function comparing its parameter with a literal) evaluated for
+// several values in a row. Equality is a relation between two values: what the same source
+// location compared earlier must not matter.
+type HistCase struct {
+	Lit Val   `json:"lit"`
+	Xs  []Val `json:"xs"`
+}
+
+func genHist(t *rapid.T) HistCase {
+	num := genNum(t, false)
+	var c HistCase
+	switch rapid.IntRange(0, 3).Draw(t, "litk") {
+	case 0, 1:
+		c.Lit = vStr(spell(t, num))
+	case 2:
+		c.Lit = num
+	default:
+		c.Lit = genPrim(t, false)
+	}
+	n := rapid.IntRange(2, 5).Draw(t, "nxs")
+	for i := 0; i < n; i++ {
+		var x Val
+		switch rapid.IntRange(0, 7).Draw(t, "xk") {
+		case 0:
+			x = num
+		case 1:
+			x = otherKind(num)
+		case 2, 3:
+			x = vStr(spell(t, num))
+		case 4:
+			x = neighbour(t, num)
+		case 5:
+			x = vStr(spell(t, neighbour(t, num)))
+		case 6:
+			x = c.Lit.clone()
+		default:
+			x = genPrim(t, false)
+		}
+		c.Xs = append(c.Xs, x)
+	}
+	return c
+}
+
+func histScript(l string, xs []string) string {
+	var sb strings.Builder
+	sb.WriteString("f = func(x) {\n s = false\n switch x {\n case " + l + ":\n  s = true\n }\n return [x == " + l + ", " + l + " == x, x != " + l + ", " + l + " != x, x in [" + l + "], " + l + " in [x], s]\n}\n")
+	calls := make([]string, len(xs))
+	for i, x := range xs {
+		calls[i] = "f(" + x + ")"
+	}
+	sb.WriteString("[" + strings.Join(calls, ", ") + "]")
+	return sb.String()
+}
+
+func oracleHist(c HistCase, o *h.Obs) *h.Fail {
+	if !valid(c.Lit, 0) || c.Lit.isContainer() || len(c.Xs) == 0 {
+		o.Excluded = "malformed_case"
+		return nil
+	}
+	l := lit(c.Lit)
+	xs := make([]string, len(c.Xs))
+	kinds := map[string]bool{}
+	for i, x := range c.Xs {
+		if !valid(x, 0) {
+			o.Excluded = "malformed_case"
+			return nil
+		}
+		xs[i] = lit(x)
+		kinds[x.K] = true
+	}
+	src := histScript(l, xs)
+	o.Key = src
+	o.NonTrivial = len(kinds) >= 2
+	o.Class("literal:" + c.Lit.K)
+	run := func(src string) ([]string, *h.Fail) {
+		got, err := ank.Exec(newEnv(), src)
+		if hp, ok := ank.IsHostPanic(err); ok {
+			return nil, h.Failf("C06|host-panic|stateless", "source:\n%s\nescaped panic: %v", src, hp.Value)
+		}
+		if err != nil {
+			return nil, h.Failf("C06|error|stateless", "source:\n%s\nanko error: %v", src, err)
+		}
+		list, ok := got.([]interface{})
+		if !ok {
+			return nil, h.Failf("C06|non-list|stateless", "source:\n%s\nresult: %s", src, ank.Describe(got))
+		}
+		out := make([]string, len(list))
+		for i, e := range list {
+			out[i] = ank.Describe(e)
+		}
+		return out, nil
+	}
+	all, f := run(src)
+	if f != nil {
+		return f
+	}
+	if len(all) != len(xs) {
+		return h.Failf("C06|non-list|stateless", "source:\n%s\n%d results for %d calls", src, len(all), len(xs))
+	}
+	for i, x := range xs {
+		one, f := run(histScript(l, []string{x}))
+		if f != nil {
+			return f
+		}
+		if len(one) != 1 || one[0] != all[i] {
+			return h.Failf("C06|law:history|"+c.Lit.K, "one comparison site evaluated for several values in a row gives another result for value %d (%s) than the same site evaluated for that value alone in a fresh program\nsource:\n%s\nin a row: %s\nalone:    %v\n(order: x == L, L == x, x != L, L != x, x in [L], L in [x], switch x {case L})", i+1, x, src, all[i], one)
 		}
 	}
 	return nil
@@ -1157,4 +1325,6 @@ func TestC06(t *testing.T) {
 	defer c.Finish()
 	c.Rule("ordered pairs (a,b) over nil, bool, int64/float64 edge pools (NaN included), numeral strings derived with strconv from those numbers (sign, leading zeros, fraction, exponent), near-numerals, plain strings, nested slices/maps (depth<=3) paired as copies / one same-typed leaf changed / one leaf changed in numeric type only / length changed / key renamed / kind switched / reordered; every pair evaluated as a==b, b==a, a!=b, b!=a, a in [b], b in [a], switch a{case b}, switch b{case a} and (numeric) a<=b&&a>=b, with literal and with variable operands; laws always asserted, reference value only where the statement defines one; non-trivial = cross-type pair, or both containers, or a number of magnitude >= 1e6; distinct by the spelling of (a,b)")
 	h.Run(c, "pairs", c.N(50000, 500000), genCase, oracle)
+	c.Rule("stateless: a function comparing its parameter with one literal (==, != both ways, in, switch case) is called for 2-5 values in a row (the number the literal denotes, its other numeric kind, other spellings, neighbours, arbitrary primitives); the results must equal those of the same function evaluated for each value alone in a fresh program; non-trivial = the values are of >= 2 kinds")
+	h.Run(c, "stateless", c.N(8000, 80000), genHist, oracleHist)
 }
